@@ -4,6 +4,7 @@ import (
 	"bytes"
 	"fmt"
 	"io"
+	"runtime"
 
 	"github.com/cloudwego/gopkg/bufiox"
 	"github.com/cloudwego/gopkg/protocol/thrift"
@@ -174,6 +175,16 @@ func monC02(c *drv.Ctx) {
 	// (1) random trees, several values per stream
 	c.Stage("trees", c.Pick(100000, 2000000), false, func(cs *drv.Case) {
 		r := cs.R
+		if cs.Idx%256 == 0 {
+			// drop the pooled decoders/readers (sync.Pool is emptied by two GC cycles): later cases start
+			// from fresh instances whose internal buffers have to grow again
+			runtime.GC()
+			runtime.GC()
+			cs.C.Obs("pool flushes (fresh pooled objects)", 1)
+		}
+		if r.Intn(4) == 0 {
+			polluteCodecPools(cs)
+		}
 		nv := 1 + r.Intn(3)
 		var vals []ref.Value
 		var encs [][]byte
@@ -257,6 +268,18 @@ func monC02(c *drv.Ctx) {
 		cs.C.ObsMax("max_nesting_skipped", int64(depth))
 	})
 
+	// (3b) nesting 1..63 entered through every position (field, element, map key, map value)
+	c.Stage("nesting-paths<=63", int64(len(gen.NestPaths))*63, true, func(cs *drv.Case) {
+		depth := int(cs.Idx%63) + 1
+		path := gen.NestPaths[cs.Idx/63]
+		b, top := gen.NestedPath(path, depth, cs.Idx%2 == 0)
+		v := ref.Value{T: top}
+		cs.Desc = M{"path": path, "depth": depth, "value_hex": hexOf(b)}
+		c02Stream(cs, []ref.Value{v, v}, [][]byte{b, b}, []byte{7}, int(cs.Idx%doubles.NSched), false)
+		c02Stream(cs, []ref.Value{v}, [][]byte{b}, nil, doubles.SchedMixed, true)
+		cs.Count(depth >= 2, "path", path, depth)
+	})
+
 	// (4) long strings around buffer boundaries, inside containers
 	lens := gen.StringLens
 	c.Stage("long-strings", int64(len(lens)*4), true, func(cs *drv.Case) {
@@ -282,4 +305,42 @@ func monC02(c *drv.Ctx) {
 		cs.Count(true, l, mode)
 		cs.C.Obs("long-string cases", 1)
 	})
+}
+
+// polluteCodecPools plays "the previous user of the pooled objects": it makes every pooled
+// decoder / reader fail half way through a value and releases it, so that whatever state a
+// failed call leaves behind is what the next user (the case under test) inherits.
+func polluteCodecPools(cs *drv.Case) {
+	r := cs.R
+	v := gen.Tree(r, ref.STRUCT, gen.TreeOpts{MaxDepth: 2, MaxElems: 4}, 0)
+	enc := v.Encode(nil)
+	enc = append(enc, 0x0c, 0x0b) // make sure there is something to cut
+	cut := 1 + r.Intn(len(enc)-1)
+	bad := enc[:cut]
+	if r.Intn(2) == 0 {
+		bad = append(append([]byte(nil), enc[:cut]...), 0x7f, 0x7f, 0x7f) // unknown type instead of truncation
+	}
+	func() {
+		defer func() { recover() }()
+		nb := &doubles.NBReader{B: bad}
+		d := thrift.NewSkipDecoder(nb)
+		d.Next(thrift.STRUCT)
+		d.Release()
+		bd := thrift.NewBytesSkipDecoder(bad)
+		bd.Next(thrift.STRUCT)
+		bd.Release()
+		rd := thrift.NewReaderSkipDecoder(bytes.NewReader(bad))
+		rd.Next(thrift.STRUCT)
+		rd.Release()
+		br := thrift.NewBufferReader(&doubles.NBReader{B: bad})
+		br.Skip(thrift.STRUCT)
+		br.ReadString()
+		br.Recycle()
+		dr := bufiox.NewDefaultReader(&doubles.Source{Data: bad, Len: len(bad), ErrAt: len(bad), Err: doubles.ErrCustom, Sched: doubles.SchedSmall, R: r, Budget: 100000})
+		br2 := thrift.NewBufferReader(dr)
+		br2.Skip(thrift.STRUCT)
+		br2.Recycle()
+		dr.Release(nil)
+	}()
+	cs.C.Obs("pool pollutions (failed calls by a previous user)", 1)
 }
